@@ -352,13 +352,29 @@ def grog_env(root_dir, trace):
     return env
 
 
-def run_grog(grog, wsdir, root_dir, trace, args, timeout=120):
+FLAKES = {"impl_timeouts": 0, "timeout_dumps": []}
+
+
+def run_grog(grog, wsdir, root_dir, trace, args, timeout=40):
+    """run the real binary; a build normally takes ~0.6 s. On a timeout the process gets SIGQUIT first so that the Go runtime
+    dumps all goroutines (kept in the log: a hang is a finding for the termination property C04, not for the callers here)."""
+    import signal
+    p = subprocess.Popen([grog] + args, cwd=wsdir, env=grog_env(root_dir, trace), stdout=subprocess.PIPE, stderr=subprocess.STDOUT,
+                         text=True, errors="replace")
     try:
-        p = subprocess.run([grog] + args, cwd=wsdir, env=grog_env(root_dir, trace), capture_output=True, text=True,
-                           timeout=timeout, errors="replace")
-        return p.returncode, (p.stdout + p.stderr)[-3000:]
-    except subprocess.TimeoutExpired as e:
-        return 124, "TIMEOUT " + str(e)[-500:]
+        out, _ = p.communicate(timeout=timeout)
+        return p.returncode, out[-3000:]
+    except subprocess.TimeoutExpired:
+        p.send_signal(signal.SIGQUIT)
+        try:
+            out, _ = p.communicate(timeout=10)
+        except subprocess.TimeoutExpired:
+            p.kill()
+            out, _ = p.communicate()
+        FLAKES["impl_timeouts"] += 1
+        if len(FLAKES["timeout_dumps"]) < 2:
+            FLAKES["timeout_dumps"].append(out[-6000:])
+        return 124, "TIMEOUT after %ss: " % timeout + " ".join(args) + "\n" + out[-2500:]
 
 
 def read_trace(trace, pos):
@@ -522,7 +538,10 @@ def run_real_many(grog, hists, scratch, par=4, force_minimal=None, prefix="h"):
         i, h = ih
         base = os.path.join(scratch, "%s%d" % (prefix, i))
         try:
-            return run_real(grog, h, base, force_minimal)
+            r = run_real(grog, h, base, force_minimal)
+            if any(o.get("rc") == 124 for o in r):
+                r = run_real(grog, h, base, force_minimal)      # the binary hung (see FLAKES): run the history again
+            return r
         finally:
             shutil.rmtree(base, ignore_errors=True)
     with ThreadPoolExecutor(max_workers=par) as ex:
@@ -1028,9 +1047,36 @@ def run_both(ctx, hists, scratch_name="h", fixes=ALL_FIXES, par=4, force_minimal
     mh = [h for h in hists if has_model(h)]
     mo = iter(run_model(ctx, mh, fixes, force_minimal)) if mh else iter([])
     recs = []
-    for h, r in zip(hists, real):
+    flaky = []
+    for i, (h, r) in enumerate(zip(hists, real)):
         m = next(mo) if has_model(h) else None
-        recs.append({"hist": h, "real": r, "model": m, "diffs": compare(h, r, m) if m is not None else []})
+        diffs = compare(h, r, m) if m is not None else []
+        if diffs:
+            # A disagreement must be reproducible to count: the real side is re-run once, alone (no parallel load from this
+            # check). A run that only failed the first time is recorded in the evidence (with the log of the failing build),
+            # not reported: it has no failing input that can be replayed.
+            base = os.path.join(ctx.scratch(scratch_name), "retry%d" % i)
+            try:
+                r2 = run_real(grog, h, base, force_minimal)
+            finally:
+                shutil.rmtree(base, ignore_errors=True)
+            d2 = compare(h, r2, m)
+            if not d2:
+                bi = diffs[0][0]
+                obs = [o for o in r if "ok" in o]
+                flaky.append({"history": describe(h), "first_difference": [diffs[0][0], diffs[0][1], str(diffs[0][2])[:200], str(diffs[0][3])[:200]],
+                              "impl_log_of_that_build": obs[bi]["log"][-1200:] if 0 <= bi < len(obs) else ""})
+                r, diffs = r2, d2
+        recs.append({"hist": h, "real": r, "model": m, "diffs": diffs})
+    if FLAKES["impl_timeouts"]:
+        ctx.coverage["impl_build_timeouts"] = FLAKES["impl_timeouts"]
+        ctx.notes.append("%d real `grog build` invocation(s) did not terminate within the harness timeout and were re-run "
+                         "(termination is property C04; goroutine dump of the first ones in coverage.impl_timeout_dump)" % FLAKES["impl_timeouts"])
+        ctx.coverage["impl_timeout_dump"] = [d[-3000:] for d in FLAKES["timeout_dumps"]]
+    if flaky:
+        ctx.coverage["unreproduced_disagreements"] = flaky[:5]
+        ctx.coverage["unreproduced_disagreements_n"] = len(flaky)
+        ctx.notes.append("%d history run(s) disagreed with the model once and agreed when re-run alone (see coverage.unreproduced_disagreements)" % len(flaky))
     return recs
 
 
@@ -1055,7 +1101,13 @@ def clean_oracle(ctx, hist, real, scratch_name="clean", par=4, which="last"):
         cands = cands[-1:]
     fails = []
 
-    def one(c):
+    def one(c, attempt=0):
+        out = one_try(c)
+        if out and attempt == 0:
+            return one_try(c)       # a failure of the oracle must be reproducible
+        return out
+
+    def one_try(c):
         n, si = c
         ws = final_ws(hist, si)
         base = os.path.join(ctx.scratch(scratch_name), "%s-%d" % (hkey(hist)[:10], n))
@@ -1168,6 +1220,7 @@ def report_disagreement(ctx, rec, correspondence, extra=None):
     d = rec["diffs"][0]
     obj = {"kind": "correspondence", "correspondence": correspondence, "history": rec["hist"], "described": describe(rec["hist"]),
            "first_difference": {"build": d[0], "field": d[1], "impl": str(d[2])[:600], "model": str(d[3])[:600]},
+           "impl_log_of_that_build": ([o for o in rec["real"] if "ok" in o][d[0]]["log"][-1500:] if d[0] >= 0 else ""),
            "n_differences": len(rec["diffs"])}
     if extra:
         obj.update(extra)
